@@ -261,6 +261,8 @@ def body(chk, db, cfgname):
     r_idem = chk.rule("C01-R7", "prepare()/compute() are idempotent: the early-return level is the level the function establishes", "F1 pairing", 5)
     from checks.lehmann import check_status_guards
     check_status_guards(r_idem, db, cfgname, ("Pomerol::GreensFunction", "Pomerol::FieldOperator", "Pomerol::CreationOperator", "Pomerol::AnnihilationOperator", "Pomerol::FieldOperatorPart"))
+    from checks.lehmann import check_copy_ctors_complete
+    check_copy_ctors_complete(r_idem, db, cfgname, ("Pomerol::GreensFunction",))
     chk.undecided.append("that the Lehmann sum equals -int_0^beta <T c(tau) c^+(0)> e^{iwt} dtau (taken from the documentation); numerical accuracy; Eigen's sparse kernels")
 
 
